@@ -36,6 +36,20 @@ class _Pop:
         yield ("val", None, st.with_ghost("dirty", True))
 
 
+class DatatypeTable:
+    """the `_datatype` dict of a line (datatypes of its custom tags): pop marks the ghost `datatype_dropped`"""
+    def pyvc_attr(self, E, attr, st):
+        if attr == "pop":
+            yield ("val", _DtPop(), st)
+        else:
+            raise Unsupported("_datatype.%s" % attr)
+
+
+class _DtPop:
+    def pyvc_call(self, E, pos, kw, st):
+        yield ("val", None, st.with_ghost("dirty", True).with_ghost("datatype_dropped", True))
+
+
 def _case(ctx, cls, label):
     g = ctx.gfapy
     fieldname, pf = enum("fieldname", sorted(set(list(cls.POSFIELDS) + ["xx", "ID"])))
@@ -48,7 +62,7 @@ def _case(ctx, cls, label):
     gfa = Obj(g.Gfa, "gfa")
     other = Obj(cls, "other")
     val = Obj(None, "value")
-    heap = {s.oid: {"_gfa": Opt(z3.Not(connected), gfa), "vlevel": vlevel, "_data": DataDict(z3.Bool("has_field"))}, gfa.oid: {}, other.oid: {}, val.oid: {}}
+    heap = {s.oid: {"_gfa": Opt(z3.Not(connected), gfa), "vlevel": vlevel, "_data": DataDict(z3.Bool("has_field")), "_datatype": DatatypeTable()}, gfa.oid: {}, other.oid: {}, val.oid: {}}
     value = Opt(vnone, val)
     def m_validate(E, st, pos_, kw):
         yield ("raise", Exc(g.FormatError), [z3.Not(vvalid)])
@@ -67,7 +81,10 @@ def _case(ctx, cls, label):
         ctx.fn("gfapy/lines/finders.py::Finders.line"): m_line,
         ctx.fn("gfapy/lines/destructors.py::Destructors._unregister_line"): m_unregister,
         ctx.fn("gfapy/lines/creators.py::Creators._register_line"): m_register,
+        g.Line.positional_fieldnames.fget: const_model(lambda self_: list(cls.POSFIELDS)),          # the class constant (FieldData.positional_fieldnames returns it)
     }
+    has = z3.Bool("has_field")
+    is_pos = z3.Or(*[fieldname == sv(f) for f in cls.POSFIELDS])
     storage_name = cls.STORAGE_KEY == "name"
     renaming = z3.And(connected, fieldname == sv(cls.NAME_FIELD)) if storage_name and getattr(cls, "NAME_FIELD", None) else z3.BoolVal(False)
     if cls.STORAGE_KEY not in (None, "name", "merge"):
@@ -88,14 +105,17 @@ def _case(ctx, cls, label):
              z3.Implies(z3.And(vlevel >= 3, z3.Not(vnone)), vvalid),                                          # C18: level 3 reports at the assignment
              z3.Implies(z3.And(renaming, z3.Not(vnone), z3.Not(vph)), lookup != 2),                            # C09: never onto an identifier in use
              z3.BoolVal(bool(st.ghost.get("registered_with")) == bool(st.ghost.get("unregistered"))),           # the line is back in the registry
-             z3.Implies(z3.Not(vnone), z3.BoolVal(bool(st.ghost.get("stored"))))]
+             z3.Implies(z3.Not(vnone), z3.BoolVal(bool(st.ghost.get("stored")))),
+             # C20: a tag that is removed (None assigned to a tag that has a value) loses its datatype too, so that a later value makes a new
+             # tag of its own default datatype; nothing else drops a datatype
+             z3.BoolVal(bool(st.ghost.get("datatype_dropped"))) == z3.And(vnone, has, z3.Not(is_pos))]
         return z3.And(*c)
     pre = [pf, vlevel >= 0, vlevel <= 3, lookup >= 0, lookup <= 2, z3.Implies(vnone, z3.Not(vph))]
     sym = dict(fieldname=fieldname, vlevel=vlevel, connected=connected, set_reference=set_ref, value_is_None=vnone, value_is_placeholder=vph,
-               value_is_valid=vvalid, lookup=lookup)
+               value_is_valid=vvalid, lookup=lookup, has_field=has)
     def replay(w):
         return {"target": "bounded.replay_helpers:set_existing_field", "args": [label, w["fieldname"], w["vlevel"], w["connected"], w["set_reference"], w["value_is_None"],
-                                                                           w["value_is_placeholder"], w["value_is_valid"], w["lookup"]]}
+                                                                           w["value_is_placeholder"], w["value_is_valid"], w["lookup"], bool(w.get("has_field"))]}
     def confirm(w, out):
         return battery_confirm(w, out)
     return Case(label, [s, fieldname, value, set_ref], post, pre=pre, heap=heap, symbols=sym, models=models, minimize=[vlevel, lookup], expect_paths=6,
@@ -105,12 +125,13 @@ def _case(ctx, cls, label):
 @register
 class SetExistingField(Contract):
     fn = "gfapy/line/common/field_data.py::FieldData._set_existing_field"
-    props = ("C08", "C09", "C18")
+    props = ("C08", "C09", "C18", "C20")
     fragment = "H"
     doc = ("per receiver class (segment, link, GFA2 edge, gap, unordered group): a raising path has written nothing (dirty = false) and raises a gfapy.Error; "
            "NotUniqueError iff a connected line is renamed onto an identifier carried by another line; RuntimeError iff a protected field of a "
            "connected line is set directly; a validity error only for an invalid value and only at level 3 (or level >= 1 for a rename); on success the "
-           "value is stored, the line is back in the registry, and at level 3 the value was valid")
+           "value is stored, the line is back in the registry, and at level 3 the value was valid; the datatype of a tag is dropped iff None is "
+           "assigned to a tag that has a value")
 
     def cases(self, ctx):
         g = ctx.gfapy
